@@ -35,14 +35,21 @@ META = dict(
             '4x4, 4x5) images; pool of 12 apertures (circle, ellipse, '
             'rectangle, annuli; inside, straddling each edge, tiny with no '
             'pixel centre inside, off-image, two positions) x sum_method in '
-            '{exact, center, subpixel(3)}; sigma_clip=None'),
+            '{exact, center, subpixel(3)}; sigma_clip=None; concrete '
+            'differential family: 11x12 noise image x bad column x outliers '
+            'x NaN x sigma_clip {None, 2, 3 sigma; 1 or 5 iterations} x '
+            'local background x sum_method x pedestal {5, 60} x {circle, '
+            'rotated ellipse}: 24 columns (centre statistics incl. mode, '
+            'MAD; sum / sum_err / sum_aper_area; centroid and moment-based '
+            'shape values) against direct computations'),
     assumptions=['floats as NaN-extended reals',
                  'compiled mask weights taken as given (C01)',
                  'areas compared with tolerance 1e-9 (float sums)'],
     stubs=['numpy facade (incl. np.min/np.max If-chains)'],
-    outside=['sigma-clipped statistics, MAD, biweight, mode',
-             'moment-based shape parameters (covariance eigen-decomposition, '
-             'orientation)', 'sky apertures'],
+    outside=['sigma-clipped statistics, MAD, mode and moment-based shape '
+             'parameters for symbolic data (decided on the concrete '
+             'differential family only); biweight statistics, gini',
+             'sky apertures'],
     min_obligations=30,
 )
 
@@ -282,46 +289,125 @@ def _isnan(v):
 
 
 def _sigclip_check(scen):
-    """Concrete differential check with a real SigmaClip: the statistics must
-    equal those of the centre-in-aperture, unmasked, finite pixels after the
-    same SigmaClip applied to exactly that value list."""
+    """Concrete differential check with a real SigmaClip (or none): the
+    centre statistics must equal those of the centre-in-aperture, unmasked,
+    finite pixels after the same SigmaClip applied to exactly that value
+    list; sum / sum_err / sum_aper_area must equal the weighted sums for the
+    chosen sum_method over the positive-weight, unmasked, finite pixels that
+    survive the same clip of their *values*; shape values must follow their
+    textbook definitions from the central moments of the surviving pixels."""
     from astropy.stats import SigmaClip
-    from photutils.aperture import ApertureStats, CircularAperture
+    from photutils.aperture import (ApertureStats, CircularAperture,
+                                    EllipticalAperture)
     rng = np.random.default_rng(7)
-    data = rng.normal(5.0, 1.0, (11, 12))
+    ped = scen.get('ped', 5.0)
+    H, W = 11, 12
+    data = rng.normal(ped, 1.0, (H, W))
+    err = 0.5 + 0.1 * np.arange(H * W, dtype=float).reshape(H, W) / (H * W)
     mask = np.zeros(data.shape, bool)
     if scen['badcol']:
         data[:, 6] += 4.0 * scen['badcol']
         mask[:, 6] = True
     if scen['outlier']:
         data[5, 4] += scen['outlier']
+        data[7, 7] += 40.0 * np.sign(scen['outlier'])
     if scen['nan']:
         data[4, 5] = np.nan
-    aper = CircularAperture((5.3, 5.1), 3.2)
-    sc = SigmaClip(sigma=scen['sigma'], maxiters=scen['iters'])
+    aper = (CircularAperture((5.3, 5.1), 3.2) if scen.get('aper', 'c') == 'c'
+            else EllipticalAperture((4.8, 5.6), 3.6, 2.1, theta=0.7))
+    sc = None if scen['sigma'] is None else SigmaClip(
+        sigma=scen['sigma'], maxiters=scen['iters'])
+    method = scen.get('method', 'exact')
+    names = ('min', 'max', 'mean', 'median', 'std', 'var', 'mode', 'mad_std',
+             'sum', 'sum_err', 'sum_aper_area', 'center_aper_area',
+             'xcentroid', 'ycentroid', 'covar_sigx2', 'covar_sigy2',
+             'covar_sigxy', 'semimajor_sigma', 'semiminor_sigma',
+             'eccentricity', 'elongation', 'ellipticity', 'fwhm',
+             'orientation')
     with warnings.catch_warnings():
         warnings.simplefilter('ignore')
-        st = ApertureStats(data, aper, mask=mask, sigma_clip=sc,
-                           local_bkg=scen['bkg'])
+        st = ApertureStats(data, aper, error=err, mask=mask, sigma_clip=sc,
+                           local_bkg=scen['bkg'], sum_method=method,
+                           subpixels=3)
         got = {q: float(getattr(getattr(st, q), 'value', getattr(st, q)))
-               for q in ('min', 'max', 'mean', 'median', 'std', 'var')}
-    cm = aper.to_mask('center')
-    vals = []
-    for j in range(cm.data.shape[0]):
-        for i in range(cm.data.shape[1]):
-            y, x = cm.bbox.iymin + j, cm.bbox.ixmin + i
-            if 0 <= y < 11 and 0 <= x < 12 and cm.data[j, i] > 0 and \
-                    not mask[y, x] and np.isfinite(data[y, x]):
-                vals.append(data[y, x] - scen['bkg'])
-    with warnings.catch_warnings():
-        warnings.simplefilter('ignore')
-        v = np.asarray(SigmaClip(sigma=scen['sigma'], maxiters=scen['iters'])(
-            np.array(vals), masked=False))
+               for q in names}
+
+    def members(wmask):
+        out = []
+        for j in range(wmask.data.shape[0]):
+            for i in range(wmask.data.shape[1]):
+                y, x = wmask.bbox.iymin + j, wmask.bbox.ixmin + i
+                if 0 <= y < H and 0 <= x < W and wmask.data[j, i] > 0 and \
+                        not mask[y, x] and np.isfinite(data[y, x]):
+                    out.append((y, x, wmask.data[j, i]))
+        return out
+
+    def clip(vals):
+        if sc is None or len(vals) == 0:
+            return np.ones(len(vals), bool)
+        with warnings.catch_warnings():
+            warnings.simplefilter('ignore')
+            m = SigmaClip(sigma=scen['sigma'], maxiters=scen['iters'])(
+                np.array(vals), masked=True)
+        return ~np.ma.getmaskarray(m)
+
+    cen = members(aper.to_mask('center'))
+    cv = np.array([data[y, x] - scen['bkg'] for y, x, w in cen])
+    keep = clip(cv)
+    v = cv[keep]
     exp = dict(min=v.min(), max=v.max(), mean=v.mean(), median=np.median(v),
-               std=v.std(), var=v.var())
-    for q in exp:
-        if not np.isclose(got[q], exp[q], rtol=1e-9, atol=1e-12):
-            return f'{q}: ApertureStats {got[q]} != direct {exp[q]}'
+               std=v.std(), var=v.var(),
+               mode=3 * np.median(v) - 2 * v.mean(),
+               mad_std=np.median(np.abs(v - np.median(v)))
+               / 0.6744897501960817,
+               center_aper_area=float(keep.sum()))
+    # moments of the surviving centre pixels (negative values are kept: the
+    # class documents plain image moments of the background-subtracted data)
+    ys = np.array([y for (y, x, w), k_ in zip(cen, keep) if k_], float)
+    xs = np.array([x for (y, x, w), k_ in zip(cen, keep) if k_], float)
+    m00 = v.sum()
+    if m00 != 0:
+        xb, yb = (xs * v).sum() / m00, (ys * v).sum() / m00
+        exp.update(xcentroid=xb, ycentroid=yb)
+        sxx = ((xs - xb) ** 2 * v).sum() / m00
+        syy = ((ys - yb) ** 2 * v).sum() / m00
+        sxy = ((xs - xb) * (ys - yb) * v).sum() / m00
+        det = sxx * syy - sxy ** 2
+        if det >= 0:
+            while det < (1 / 12) ** 2:
+                sxx += 1 / 12
+                syy += 1 / 12
+                det = sxx * syy - sxy ** 2
+            tr = sxx + syy
+            disc = np.sqrt(max(tr * tr - 4 * det, 0.0))
+            l1, l2 = (tr + disc) / 2, (tr - disc) / 2
+            if l2 >= 0:
+                a, b = np.sqrt(l1), np.sqrt(l2)
+                exp.update(covar_sigx2=sxx, covar_sigy2=syy, covar_sigxy=sxy,
+                           semimajor_sigma=a, semiminor_sigma=b,
+                           eccentricity=np.sqrt(1 - l2 / l1),
+                           elongation=a / b, ellipticity=1 - b / a,
+                           fwhm=2 * np.sqrt(np.log(2) * (l1 + l2)),
+                           orientation=np.degrees(0.5 * np.arctan2(
+                               2 * sxy, sxx - syy)))
+    sm = members(aper.to_mask(method, subpixels=3))
+    sv = np.array([data[y, x] - scen['bkg'] for y, x, w in sm])
+    sk = clip(sv)
+    ww = np.array([w for y, x, w in sm])[sk]
+    exp.update(sum=(ww * sv[sk]).sum(),
+               sum_err=np.sqrt((ww * np.array(
+                   [err[y, x] ** 2 for y, x, w in sm])[sk]).sum()),
+               sum_aper_area=ww.sum())
+    for q, e in exp.items():
+        g = got[q]
+        if scen.get('twin') and q == 'mad_std':
+            e = e * 1.01
+        if q == 'orientation':
+            if abs((g - e + 90) % 180 - 90) > 1e-6:
+                return f'{q}: ApertureStats {g} != direct {e}'
+            continue
+        if not np.isclose(g, e, rtol=1e-8, atol=1e-10):
+            return f'{q}: ApertureStats {g} != direct {e}'
     return None
 
 
@@ -333,9 +419,15 @@ def _run_sigclip(case):
         scen = dict(badcol=ctx.choice('badcol', [0, 1, -1]),
                     outlier=ctx.choice('outlier', [0.0, 4.0, 9.0, -6.0]),
                     nan=ctx.flag('nan'),
-                    sigma=ctx.choice('sigma', [2.0, 3.0]),
+                    sigma=ctx.choice('sigma', [None, 2.0, 3.0]),
                     iters=ctx.choice('iters', [1, 5]),
-                    bkg=ctx.choice('bkg', [0.0, 1.5]))
+                    bkg=ctx.choice('bkg', [0.0, 1.5]),
+                    method=ctx.choice('method', ['exact', 'center',
+                                                 'subpixel']),
+                    ped=ctx.choice('ped', [5.0, 60.0]),
+                    aper=case.get('aper', 'c'))
+        if case.get('twin'):
+            scen['twin'] = True
         ctx.stats.obligations += 1
         cnt['n'] += 1
         msg = _sigclip_check(scen)
@@ -382,6 +474,10 @@ def cases(tier, seed):
                  ('circ-left', ('subpixel', 3))):
         add((3, 3), a, m, mask=True, nan=False, errnan=True)
     cs.append(dict(name='sigclip-differential', kind='sigclip'))
+    cs.append(dict(name='sigclip-differential-ellipse', kind='sigclip',
+                   aper='e'))
+    cs.append(dict(name='sigclip-differential-twin', kind='sigclip',
+                   twin=True))
     for a in ('circ-small', 'circ-small-edge'):
         add((3, 3), a, methods[(seed + len(a)) % 3], mask=False, nan=True,
             median=True)
